@@ -72,8 +72,26 @@ impl<T: FileReader> RVParser<T> {
             }
             Err(err) => diags.push(DiagnosticItem::from(*err)),
         }
-        diags.sort();
+        self.sort_diagnostics(&mut diags);
         diags
+    }
+
+    /// Sort diagnostics by file name, then by position within the file.
+    ///
+    /// Files are identified by random UUIDs, so ordering by the identifier
+    /// itself (what `DiagnosticItem`'s `Ord` does) gives a different order of
+    /// files on every run.
+    pub fn sort_diagnostics(&self, diags: &mut [DiagnosticItem]) {
+        diags.sort_by(|a, b| {
+            if a.file == b.file {
+                a.range.cmp(&b.range)
+            } else {
+                self.reader
+                    .get_filename(a.file)
+                    .cmp(&self.reader.get_filename(b.file))
+                    .then_with(|| a.range.cmp(&b.range))
+            }
+        });
     }
 
     pub fn new(reader: T) -> RVParser<T> {
